@@ -2,7 +2,4 @@ CONSTANT SectorBase = 8
 INIT Init
 NEXT Next
 INVARIANT LayoutOk
-INVARIANT RoundTrip
-INVARIANT AbsentNotFound
-INVARIANT DeviationsBreak
 CHECK_DEADLOCK FALSE
